@@ -14,7 +14,7 @@ META = {
     "modifier the grammar admits on each tag side, is printed to source, rendered by a fresh Environment under "
     "each of the four trim/lstrip settings and compared with the output R-ws predicts from the documented rules "
     "(docs/templates.rst 'Whitespace Control').",
-    "note": "Bounded: chunk alphabet of 10 (thorough 13: adds NBSP, VT and a double line break) strings, <= 3 tags, one statement form per "
+    "note": "Bounded: chunk alphabet of 10 (thorough 13: adds NBSP, VT and a double line break) strings plus a reduced product over 4 chunks with form feed / vertical tab / NBSP / EM SPACE in both tiers, <= 3 tags, one statement form per "
     "tag kind; in 2-tag skeletons raw pairs vary only the modifiers facing their neighbours and the outer chunks of "
     "the quick tier come from a 5-string sub-alphabet (the middle chunk from the full one). Four reference rules "
     "are calibrated on the pinned tree where the docs are silent (see assumptions). newline_sequence and "
@@ -27,16 +27,21 @@ RAW_BODY_A = " \n a\n  "  # leading newline (never trimmed), trailing indentatio
 
 def phases(quick):
     """[(name, ntags, chunk_slots, tagset)]"""
+    raw2 = [("raw", m, "", RAW_BODY_A, "", m) for m in ("", "-")]
+    # non space/tab whitespace (K1) in both tiers: reduced product
+    ws = [
+        ("1tag/unicode-ws", 1, [g.CHUNKS_WS, g.CHUNKS_WS], g.tags("full", g.CHUNKS_WS)),
+        ("2tags/unicode-ws", 2, [("", "\xa0"), g.CHUNKS_WS, ("", "\n\x0b")], g.tags("none") + raw2),
+    ]
     if quick:
         full = g.CHUNKS
         return [
             ("0tags", 0, [full], []),
             ("1tag/full", 1, [full, full], g.tags("full", full)),
             ("2tags/mid-full-mid", 2, [g.CHUNKS_MID, full, g.CHUNKS_MID], g.tags("outer", (RAW_BODY_A,))),
-        ]
+        ] + ws
     full = g.CHUNKS + g.CHUNKS_EXTRA
-    raw2 = [("raw", m, "", RAW_BODY_A, "", m) for m in ("", "-")]
-    return [
+    return ws + [
         ("0tags", 0, [full], []),
         ("1tag/full", 1, [full, full], g.tags("full", full)),
         ("2tags/full", 2, [full] * 3, g.tags("outer", (RAW_BODY_A,))),
